@@ -7,7 +7,7 @@ class sizes.  Allocation histories are NOT decided.
 """
 import os
 from . import common
-from .common import AnalysisBroken
+from .common import AnalysisBroken, walk, strip, render
 
 EXPLANATION = (
     "C10-T: from the constant-evaluated initialisers of store.c (both the compiler and the -DFOAM_RTS configuration): "
@@ -358,6 +358,91 @@ def check_btree_handles(rep, config):
     rep.floor("node handles obtained from a search in btree.c [%s]" % config, nh, 2)
 
 
+def check_sweep_marks(rep, config):
+    """The sweep clears the mark bits of a piece (all its quanta) exactly when that piece was marked.  The decision is taken from
+    the info byte of the piece's first quantum: the tag tested must have been loaded from sect->info[S] for the S at which the
+    clearing starts.  (A piece merged into a freed neighbour keeps its marks otherwise, and the next collection takes the stale
+    marks for reachability.)"""
+    f = common.extract("store.c", config, trees=["stoGcSweepFixed", "stoGcSweepMixed"])
+    n = 0
+    for name in ("stoGcSweepFixed", "stoGcSweepMixed"):
+        fn = f.func(name)
+        par = common.parents(fn["body"])
+        defs = {}
+        for x in walk(fn["body"]):
+            if x["k"] == "BinaryOperator" and x["op"] == "=" and (strip(x["c"][0]) or {}).get("k") == "DeclRefExpr":
+                defs.setdefault(strip(x["c"][0])["n"], []).append(x["c"][1])
+            if x["k"] == "DeclStmt":
+                for d in x.get("decls", []):
+                    if d.get("init") is not None:
+                        defs.setdefault(d["n"], []).append(d["init"])
+
+        def only_def(v):
+            ds = defs.get(v, [])
+            return ds[0] if len(ds) == 1 else None
+
+        def info_index(e):
+            """X if e is sect->info[X]"""
+            e = strip(e)
+            if e is None or e["k"] != "ArraySubscriptExpr":
+                return None
+            a = strip(e["c"][0])
+            if a is None or a["k"] != "MemberExpr" or a["n"] != "info":
+                return None
+            return render(strip(e["c"][1]))
+        for x in walk(fn["body"]):
+            if x.get("mac") != "QmInfoClearMark" or x["k"] != "CompoundAssignOperator":
+                continue
+            tgt = [y for y in walk(x) if y["k"] == "ArraySubscriptExpr"]
+            if not tgt:
+                raise AnalysisBroken("%s: QmInfoClearMark target is not sect->info[...]" % name)
+            idx = info_index(tgt[0])
+            if idx is None:
+                raise AnalysisBroken("%s: QmInfoClearMark target is not sect->info[...]" % name)
+            n += 1
+            # the guarding mark test, then the start of the cleared range
+            test = None
+            cur = x
+            while cur["id"] in par and test is None:
+                p_ = par[cur["id"]]
+                if p_["k"] == "IfStmt" and p_["c"][1] is not None and any(y is cur for y in walk(p_["c"][1])):
+                    c = strip(p_["c"][0])
+                    if c is not None and c["k"] == "DeclRefExpr" and only_def(c["n"]) is not None:
+                        c = strip(only_def(c["n"]))
+                    if c is not None and any(y.get("mac") == "QmInfoMark" for y in walk(c)):
+                        test = c
+                cur = p_
+            where = "store.c:%d (%s)" % (x["l"], name)
+            if test is None:
+                raise AnalysisBroken("%s: mark clearing at line %d is not under a QmInfoMark test" % (name, x["l"]))
+            tags = [y["n"] for y in walk(test) if y["k"] == "DeclRefExpr" and not y["n"].startswith("Qm")]
+            if len(tags) != 1 or only_def(tags[0]) is None:
+                raise AnalysisBroken("%s: the tag tested at line %d is not a once-assigned local" % (name, test["l"]))
+            tagdef = only_def(tags[0])
+            src = info_index(tagdef)
+            if src is None:
+                raise AnalysisBroken("%s: '%s' is not loaded from sect->info[...]" % (name, tags[0]))
+            start = idx
+            cur = x
+            while cur["id"] in par:
+                p_ = par[cur["id"]]
+                if p_["k"] == "ForStmt" and p_["c"][0] is not None and start == idx and not any(y is tagdef for y in walk(p_)):
+                    i0 = strip(p_["c"][0])
+                    if i0 is not None and i0["k"] == "BinaryOperator" and i0["op"] == "=" and render(strip(i0["c"][0])) == idx:
+                        start = render(strip(i0["c"][1]))
+                cur = p_
+            key = "sweep-mark:%s@%s:%d" % (name, start, n)
+            if src == start:
+                rep.ok("T-sweep", key)
+            else:
+                rep.violation("T-sweep", key, where,
+                              "the marks of the quanta starting at %s are cleared when the tag of quantum %s ('%s') is marked: the "
+                              "test looks at a different piece than the one whose marks it clears, so a merged piece keeps stale "
+                              "marks (or a live piece loses them) and the next collection frees or retains the wrong storage"
+                              % (start, src, tags[0]))
+    rep.floor("mark-clearing sites in the sweep (%s)" % config, n, 4)
+
+
 def run(tier):
     rep = common.Report("C10", tier, EXPLANATION)
     for config in ("compiler", "runtime"):
@@ -366,6 +451,7 @@ def run(tier):
         check_section_sizing(rep, config)
         check_carving(rep, config)
         check_btree_handles(rep, config)
+        check_sweep_marks(rep, config)
     rep.floor("C10 table obligations", rep.obligations, 60)
     rep.assumptions.append("allocation, free, resize and collection histories are not analysed")
     return rep
